@@ -116,15 +116,15 @@ impl<'a> Env<'a> {
                 self.tolerated_guard += 1;
                 return;
             }
-            let sig = format!("C19/{}/{}/depth-guard-below-limit", self.sub, family(api));
+            let sig = format!("C19/lib/{}/depth-guard-below-limit", family(api));
             self.push(sig, api, &loc, &msg);
             return;
         }
         let site = panic_sig(&loc);
         let sig = if low_level_site(&site) {
-            format!("C19/{}/panic@{}/{}", self.sub, site, msg_class(&msg))
+            format!("C19/lib/panic@{}/{}", site, msg_class(&msg))
         } else {
-            format!("C19/{}/{}/panic@{}/{}", self.sub, family(api), site, msg_class(&msg))
+            format!("C19/lib/{}/panic@{}/{}", family(api), site, msg_class(&msg))
         };
         self.push(sig, api, &loc, &msg);
     }
@@ -132,7 +132,7 @@ impl<'a> Env<'a> {
         if self.fails.iter().any(|f| f.sig == sig) {
             return;
         }
-        let mut d = json!({"api": api, "panic": msg, "location": loc, "input_len": self.input.len(), "input": show_bytes(self.input)});
+        let mut d = json!({"subcheck": self.sub, "api": api, "panic": msg, "location": loc, "input_len": self.input.len(), "input": show_bytes(self.input)});
         if self.input.len() <= 4096 {
             d["input_hex"] = json!(hex(self.input));
         }
@@ -172,7 +172,14 @@ impl<'a> Env<'a> {
 macro_rules! api {
     ($env:expr, $name:expr, $e:expr) => {{
         $env.apis += 1;
-        match catch(|| $e) {
+        let t0 = if trace_on() { Some(std::time::Instant::now()) } else { None };
+        let r = catch(|| $e);
+        if let Some(t) = t0 {
+            if t.elapsed().as_millis() > 300 {
+                eprintln!("slow api {} {} ms", $name, t.elapsed().as_millis());
+            }
+        }
+        match r {
             Ok(v) => Some(v),
             Err(p) => {
                 $env.panicked($name, p);
@@ -180,6 +187,12 @@ macro_rules! api {
             }
         }
     }};
+}
+
+/// development aid: VH_C19_TRACE=1 reports API calls slower than 300 ms on stderr
+fn trace_on() -> bool {
+    static T: std::sync::OnceLock<bool> = std::sync::OnceLock::new();
+    *T.get_or_init(|| std::env::var("VH_C19_TRACE").is_ok())
 }
 
 struct Sink {
@@ -197,7 +210,7 @@ impl core::fmt::Write for Sink {
     }
 }
 fn sink() -> Sink {
-    Sink { n: 0, cap: 64 << 20 }
+    Sink { n: 0, cap: 2 << 20 }
 }
 
 /// Offsets to probe: all of them for small inputs, a strided sample + edges otherwise.
@@ -547,9 +560,38 @@ fn yaml_subject(env: &mut Env, text: &[u8], groups: u32) -> Summary {
             api!(env, "YamlCursor::cursor_at_position", root.cursor_at_position(l, c).is_some());
         }
     }
-    if groups & Y_JSON_OUT != 0 {
+    if groups & Y_WALK == 0 && groups & (Y_JSON_OUT | Y_YAML_OUT) != 0 && text.len() > 2 {
+        // deep mode: print the nodes at the far end first (cheap, and where chains are longest)
+        for o in [text.len() - 2, text.len() / 2] {
+            let Some(Some(mut c)) = api!(env, "YamlCursor::cursor_at_offset", root.cursor_at_offset(o)) else { continue };
+            for up in 0..3 {
+                if groups & Y_JSON_OUT != 0 {
+                    if up == 0 {
+                        // unbounded String: only on the far-end node itself, never on an ancestor
+                        api!(env, "YamlCursor::to_json", c.to_json().len());
+                    }
+                    api!(env, "YamlCursor::stream_json", c.stream_json(&mut sink(), IndentSpec::spaces(2), true).is_ok());
+                }
+                if groups & Y_YAML_OUT != 0 {
+                    api!(env, "YamlCursor::stream_yaml", c.stream_yaml(&mut sink(), IndentSpec::spaces(2), false).is_ok());
+                    api!(env, "YamlCursor::stream_yaml_as_document", c.stream_yaml_as_document(&mut sink(), IndentSpec::COMPACT, true).is_ok());
+                }
+                match api!(env, "YamlCursor::parent", c.parent()) {
+                    Some(Some(p)) if p.bp_position() != 0 => c = p,
+                    _ => break,
+                }
+            }
+        }
+    }
+    // `to_json*` build an unbounded String: alias expansion makes that quadratic in the number
+    // of nested aliases, so for alias-heavy big inputs only the bounded streaming twin runs at
+    // the root (the unbounded one still runs on the far-end nodes above)
+    let alias_heavy = text.len() > 16_384 && text.iter().filter(|&&b| b == b'*').count() > 500;
+    if groups & Y_JSON_OUT != 0 && !alias_heavy {
         api!(env, "YamlCursor::to_json_document", root.to_json_document().len());
         api!(env, "YamlCursor::to_json", root.to_json().len());
+    }
+    if groups & Y_JSON_OUT != 0 {
         api!(env, "YamlCursor::stream_json", root.stream_json(&mut sink(), IndentSpec::COMPACT, false).is_ok());
         api!(env, "YamlCursor::stream_json", root.stream_json(&mut sink(), IndentSpec::spaces(2), true).is_ok());
         api!(env, "YamlCursor::stream_json_document", root.stream_json_document(&mut sink(), IndentSpec::spaces(2), false).is_ok());
@@ -577,7 +619,7 @@ fn yaml_subject(env: &mut Env, text: &[u8], groups: u32) -> Summary {
             }
         });
         for dc in docs {
-            if groups & Y_JSON_OUT != 0 {
+            if groups & Y_JSON_OUT != 0 && !alias_heavy {
                 api!(env, "YamlCursor::documents-json", dc.to_json().len());
             }
             if groups & Y_YAML_OUT != 0 {
@@ -716,6 +758,19 @@ fn alias_chain(n: usize) -> Vec<u8> {
     v
 }
 
+/// anchors nested through aliases: a_i = [*a_(i-1)] (flow) or a block mapping holding the alias
+fn alias_nest(n: usize, block: bool) -> Vec<u8> {
+    let mut v = if block { b"a0: &a0\n  k: x\n".to_vec() } else { b"a0: &a0 [x]\n".to_vec() };
+    for i in 1..n {
+        if block {
+            v.extend_from_slice(format!("a{}: &a{}\n  k: *a{}\n", i, i, i - 1).as_bytes());
+        } else {
+            v.extend_from_slice(format!("a{}: &a{} [*a{}]\n", i, i, i - 1).as_bytes());
+        }
+    }
+    v
+}
+
 fn merge_chain(n: usize) -> Vec<u8> {
     let mut v = b"a0: &a0 {k: v}\n".to_vec();
     for i in 1..n {
@@ -743,6 +798,9 @@ pub fn input_from_json(v: &Value) -> Option<Vec<u8>> {
     }
     if let Some(r) = v.get("alias_chain") {
         return Some(alias_chain(r["n"].as_u64()? as usize));
+    }
+    if let Some(r) = v.get("alias_nest") {
+        return Some(alias_nest(r["n"].as_u64()? as usize, r["block"].as_bool().unwrap_or(false)));
     }
     if let Some(r) = v.get("merge_chain") {
         return Some(merge_chain(r["n"].as_u64()? as usize));
@@ -879,10 +937,11 @@ fn gen_yaml_input(u: &mut Src) -> Input {
         7 => {
             // anchors / aliases / merges in quantity, staircases
             let n = *u.pick(&[2usize, 5, 40, 300]);
-            let b = match u.below(4) {
+            let b = match u.below(5) {
                 0 => alias_chain(n),
-                1 => merge_chain(n),
+                1 => merge_chain(n.min(40)),
                 2 => soup::yaml_staircase(n.min(120), u.bool()),
+                3 => alias_nest(n.min(60), u.bool()),
                 _ => {
                     let mut v = b"base: &b {x: 1}\nlist:\n".to_vec();
                     for _ in 0..n {
@@ -1038,20 +1097,28 @@ fn gen_deep(u: &mut Src, table: &[(&str, &str, &str, &str)], sizes: &[usize]) ->
     repeat_recipe(pre, o, i, c, n, u.bool())
 }
 
-fn gen_deep_yaml(u: &mut Src, sizes: &[usize]) -> Input {
-    match u.below(8) {
+/// `printers`: the sub-check prints whole documents (alias expansion makes long alias chains
+/// quadratic there, so they are kept shorter; the walk sub-check takes the long ones).
+fn gen_deep_yaml(u: &mut Src, sizes: &[usize], printers: bool) -> Input {
+    match u.below(10) {
         0 => {
             let n = *u.pick(&[50usize, 200, 600, 1200]);
             let seq = u.bool();
             Input { bytes: soup::yaml_staircase(n, seq), class: "deep:staircase".into(), recipe: Some(json!({"staircase": {"n": n, "seq": seq}})) }
         }
         1 => {
-            let n = *u.pick(&[200usize, 5000, 70000]);
+            let n = if printers { *u.pick(&[200usize, 3000]) } else { *u.pick(&[200usize, 5000, 70000]) };
             Input { bytes: alias_chain(n), class: "deep:alias-chain".into(), recipe: Some(json!({"alias_chain": {"n": n}})) }
         }
-        2 => {
-            let n = *u.pick(&[50usize, 1000, 8000]);
+        2 | 3 => {
+            // `<<: *previous` chains: resolution is super-linear, sizes chosen to stay in seconds
+            let n = if printers { *u.pick(&[30usize, 150]) } else { *u.pick(&[150usize, 8000, 30_000]) };
             Input { bytes: merge_chain(n), class: "deep:merge-chain".into(), recipe: Some(json!({"merge_chain": {"n": n}})) }
+        }
+        4 | 5 => {
+            let n = *u.pick(&[100usize, 5000, 60_000]);
+            let block = u.bool();
+            Input { bytes: alias_nest(n, block), class: "deep:alias-nest".into(), recipe: Some(json!({"alias_nest": {"n": n, "block": block}})) }
         }
         _ => gen_deep(u, YAML_DEEP, sizes),
     }
@@ -1233,10 +1300,11 @@ fn cli_case(bytes: &[u8], st: &mut Stats) -> Result<(), Fail> {
     for (name, args) in CLI_CMDS {
         let mut a: Vec<&str> = args.to_vec();
         a.push(&ps);
-        let o = cli::run(&a, None);
+        let o = cli::run_with(&cli::cli_path(), &a, None, std::time::Duration::from_secs(10), &[]);
         st.evals(1);
         if o.timed_out {
             st.class("cli-timeout-discarded");
+            st.class(&format!("cli-timeout:{}", name));
             st.discard();
             continue;
         }
@@ -1244,15 +1312,15 @@ fn cli_case(bytes: &[u8], st: &mut Stats) -> Result<(), Fail> {
         if o.crashed() {
             let err = o.stderr_str();
             let mut sig = match parse_cli_panic(&err) {
-                Some((loc, msg)) => format!("C19/cli/{}/panic@{}/{}", name, panic_sig(&loc), msg_class(&msg)),
-                None => format!("C19/cli/{}/signal-{}", name, o.signal.unwrap_or(0)),
+                Some((loc, msg)) => format!("C19/cli/panic@{}/{}", panic_sig(&loc), msg_class(&msg)),
+                None => format!("C19/cli/{}/signal-{}", name.split('-').next().unwrap_or(name), o.signal.unwrap_or(0)),
             };
             if let Some(n) = guard_limit(&err) {
                 if soup::nesting_measure(bytes) > n {
                     st.class("documented-depth-guard-tolerated");
                     continue;
                 }
-                sig = format!("C19/cli/{}/depth-guard-below-limit", name);
+                sig = format!("C19/cli/depth-guard-below-limit");
             }
             if first.is_none() {
                 let tail: String = err.chars().take(600).collect();
@@ -1272,7 +1340,7 @@ fn cli_case(bytes: &[u8], st: &mut Stats) -> Result<(), Fail> {
 }
 
 fn gen_cli_input(u: &mut Src) -> Input {
-    match u.weighted(&[35, 40, 12, 6, 7]) {
+    match u.weighted(&[36, 41, 12, 4, 7]) {
         0 => gen_json_input(u),
         1 => gen_yaml_input(u),
         2 => {
@@ -1281,11 +1349,18 @@ fn gen_cli_input(u: &mut Src) -> Input {
             i
         }
         3 => {
-            let sizes = [300usize, 3000, 100_000];
+            let sizes = [300usize, 3000, 20_000];
             if u.bool() {
                 gen_deep(u, JSON_DEEP, &sizes)
             } else {
-                gen_deep_yaml(u, &sizes)
+                let d = gen_deep_yaml(u, &sizes, true);
+                if d.class == "deep:alias-nest" && d.bytes.len() > 20_000 {
+                    // `yq -o json` expands nested aliases: quadratic output, only small ones here
+                    let block = u.bool();
+                    Input { bytes: alias_nest(300, block), class: d.class, recipe: Some(json!({"alias_nest": {"n": 300, "block": block}})) }
+                } else {
+                    d
+                }
             }
         }
         _ => {
@@ -1347,13 +1422,13 @@ pub fn run(cx: &mut Ctx) {
                 repeat_recipe("", o, i, c, n, u.bool())
             }
             s if s.starts_with("deep-json") => gen_deep(&mut u, JSON_DEEP, &sizes),
-            _ => gen_deep_yaml(&mut u, &sizes),
+            s => gen_deep_yaml(&mut u, &sizes, s.ends_with("-out")),
         };
         println!("{}", json!({"class": inp.class, "len": inp.bytes.len(), "input": inp.to_json(), "hex": if inp.bytes.len() <= 8192 { hex(&inp.bytes) } else { String::new() }}));
         std::process::exit(0);
     }
     cx.assume("the harness build (release + debug-assertions + overflow-checks, default features, runtime SIMD dispatch of this host) is representative of the library; the CLI is /repo's release binary");
-    cx.assume("walks are bounded (3000 nodes, 2048 sampled offsets, 64 MiB of printer output per call): a crash reachable only beyond those bounds is not seen");
+    cx.assume("walks are bounded (3000 nodes, 2048 sampled offsets, 2 MiB of printer output per call): a crash reachable only beyond those bounds is not seen");
     cx.assume("a documented depth-guard panic ('nesting depth exceeds limit of N') is tolerated only when an over-approximate nesting measure of the input (bracket depth, indentation levels, indicator runs, alias count) exceeds N");
     let known: Vec<String> = cx.known.iter().filter(|k| k.status == "known").map(|k| k.signature.clone()).collect();
     let fx = soup::fixtures();
@@ -1419,8 +1494,9 @@ pub fn run(cx: &mut Ctx) {
         let inp = gen_program(u);
         lib_case("jq-parse", inp, Value::Null, k, st)
     });
-    for (sub, cls) in [("json-lib", "src-soup"), ("json-lib", "src-truncated"), ("json-lib", "src-raw"), ("json-lib", "src-fixture-mutated"), ("json-lib", "src-edge"), ("yaml-lib", "src-soup"), ("yaml-lib", "src-fixture-mutated"), ("yaml-lib", "src-truncated"), ("yaml-lib", "src-raw"), ("yaml-lib", "src-edge"), ("jq-parse", "src-soup"), ("jq-parse", "src-fixture-mutated"), ("jq-parse", "invalid-utf8-free")] {
-        if cls != "invalid-utf8-free" && !(cls.contains("fixture") && !fx.missing.is_empty()) {
+    for (sub, cls) in [("json-lib", "src-soup"), ("json-lib", "src-truncated"), ("json-lib", "src-raw"), ("json-lib", "src-fixture-mutated"), ("json-lib", "src-edge"), ("json-lib", "invalid-utf8"), ("yaml-lib", "src-soup"), ("yaml-lib", "src-fixture-mutated"), ("yaml-lib", "src-truncated"), ("yaml-lib", "src-raw"), ("yaml-lib", "src-edge"), ("yaml-lib", "src-anchors"), ("jq-parse", "src-soup"), ("jq-parse", "src-fixture-mutated"), ("dsv-lib", "odd-quotes")] {
+        // fixture-derived classes cannot be demanded when the fixture files are absent
+        if !(cls.contains("fixture") && !fx.missing.is_empty()) {
             cx.require_class(sub, cls, 20);
         }
     }
@@ -1432,6 +1508,8 @@ pub fn run(cx: &mut Ctx) {
     let thorough = cx.tier == Tier::Thorough;
     let sizes: Vec<usize> = if thorough { vec![300, 3000, 30_000, 200_000, 1_000_000] } else { vec![300, 3000, 30_000, 200_000] };
     let sz = &sizes;
+    let ysizes: Vec<usize> = if thorough { vec![300, 3000, 30_000, 200_000] } else { vec![300, 3000, 30_000] };
+    let ysz = &ysizes;
     let deep_budget = Budget { quick: 40, thorough: 400, max_len: 64 };
     let db = || Budget { quick: deep_budget.quick, thorough: deep_budget.thorough, max_len: 64 };
     for sub in ["deep-json-build", "deep-json-walk", "deep-json-offsets", "deep-json-stream-json", "deep-json-stream-yaml", "deep-json-simple"] {
@@ -1441,8 +1519,8 @@ pub fn run(cx: &mut Ctx) {
         });
     }
     for sub in ["deep-yaml-build", "deep-yaml-walk", "deep-yaml-json-out", "deep-yaml-yaml-out"] {
-        cx.check_isolated(sub, "flow/indicator units repeated n times, indentation staircases, alias and merge chains; one API group", db(), iso(4), |u, st| {
-            let inp = gen_deep_yaml(u, sz);
+        cx.check_isolated(sub, "flow/indicator units repeated n times (300..30k, thorough 200k), indentation staircases, alias chains, alias nesting and merge chains; one API group", db(), iso(4), |u, st| {
+            let inp = gen_deep_yaml(u, ysz, sub.ends_with("-out"));
             lib_case(sub, inp, Value::Null, k, st)
         });
     }
@@ -1453,8 +1531,8 @@ pub fn run(cx: &mut Ctx) {
         lib_case("deep-jq-parse", inp, Value::Null, k, st)
     });
 
-    // 4. CLI (E2), same byte generators
-    if !cx.skip("cli") {
+    // 4. CLI (E2), same byte generators (VH_C19_SKIP_CLI: development aid for library-only runs)
+    if !cx.skip("cli") && std::env::var("VH_C19_SKIP_CLI").is_err() {
         if !cli::cli_available() {
             cx.infra(format!("CLI binary missing: {}", cli::cli_path()));
         } else {
@@ -1476,7 +1554,7 @@ pub fn run(cx: &mut Ctx) {
             });
             let to = cx.subs.iter().find(|s| s.name == "cli").and_then(|s| s.stats.classes.get("cli-timeout-discarded").copied()).unwrap_or(0);
             if to > 0 {
-                cx.note(format!("cli: {} command run(s) hit the 20 s CLI watchdog and were discarded", to));
+                cx.note(format!("cli: {} command run(s) hit the 10 s CLI watchdog and were discarded", to));
             }
             cli::cleanup();
         }
